@@ -676,8 +676,13 @@ impl RtrPerAddrMetrics {
             return addrs[idx].1.clone()
         }
 
+        #[cfg(routinator_verif)]
+        crate::verif::preempt("metrics-after-load");
+
         // We don’t. Create a new slice with the address included.
         let _write = self.write.lock();
+        #[cfg(routinator_verif)]
+        crate::verif::preempt("metrics-after-lock");
 
         // Re-load self.addrs, it may have changed since.
         let addrs = self.addrs.load();
@@ -693,7 +698,11 @@ impl RtrPerAddrMetrics {
         new_addrs.push((addr, Default::default()));
         new_addrs.extend_from_slice(&addrs[idx..]);
         let res = new_addrs[idx].1.clone();
+        #[cfg(routinator_verif)]
+        crate::verif::preempt("metrics-before-store");
         self.addrs.store(new_addrs.into());
+        #[cfg(routinator_verif)]
+        crate::verif::trace("RegistryInsert", &[("len", (addrs.len() + 1) as i64)]);
         res
     }
 }
